@@ -141,7 +141,7 @@ def main(argv=None) -> int:
     s = sub.add_parser("selftest")
     s.add_argument("--quiet", action="store_true")
     s.add_argument("--root", default=os.environ.get("DROPSTAT_ROOT", "/repo"))
-    s.add_argument("--jobs", type=int, default=8)
+    s.add_argument("--jobs", type=int, default=16)
     args = ap.parse_args(argv)
     if args.cmd == "check":
         return cmd_check(args)
